@@ -275,17 +275,18 @@ var specs = map[string]Spec{
 		MaxSamples:  2,
 	},
 	"C19": {
+		ExtraEngine: "wire", ExtraRun: "^TestTLSWire$", ExtraShards: 1,
 		Engine: "tlsmatrix", Run: "^TestMatrix$", Race: false,
 		QuickShards: 8, ThoroughShards: 8, QuickWatchdog: 10 * time.Minute, ThoroughWatchdog: 30 * time.Minute,
 		Level:     "exploration",
 		LevelText: "Real handshakes against the real TLS configurations: the proxy as server (GetServerTLSConfig in a raw TLS listener and inside the real mux receiver) and as client (GetClientTLSConfig in a raw dial and inside the real mux establisher), against every peer credential from an in-process PKI (valid chain, second valid chain, self-signed, self-signed copying the CA's subject, other CA, expired, not yet valid, wrong extended key usage, wrong DNS name, none; the client presents its certificate regardless of the CA hint) x verification on/off x own certificate yes/no. The verdict is taken on the first application round trip (raw) / yamux ping and session registration (mux) observed from both ends, not on Handshake() returning, because a TLS 1.3 client finishes before the server verifies. Admitted iff the credential chains to the configured CA, is within validity, has the right usage (and, client role, matches the configured name); with skipCAVerification everything connects.",
-		LevelNote: "The matrix is exhaustive over the listed credentials and switches (336 rows). CA loaded from file only (no https CA source in the sandbox). The assembled gRPC TCP server/client use the same two functions; their wiring is covered by the wire engine.",
+		LevelNote: "The matrix is exhaustive over the listed credentials and switches (336 rows). CA loaded from file only (no https CA source in the sandbox). An extra pass (wire engine) assembles a ClusterConnection with TLS on the remote-facing TCP server and on the client towards a cluster, and checks with real gRPC calls that only the valid credential is served in either role and that a plaintext client is not - i.e. that the configuration's TLS settings are really installed.",
 		Technique: "runtime monitor: exhaustive credential x configuration matrix of real TLS handshakes, verdict on application data observed at both ends",
 		DesignRef: "DESIGN.md §4 C19",
 		Rule:      "cases = role x embedding x peer credential x verification x own certificate; distinct = rows; all non-trivial",
 		Exhaustive: "the full cross product of 11 peer credentials x 2 roles x 2 embeddings x verification on/off x own certificate yes/no",
 		Assumptions: []string{"loopback sockets, real time; a watchdog expiry is inconclusive, never a violation"},
-		QuickFloors: map[string]int64{"handshakes": 150, "admitted": 60, "refused": 60},
+		QuickFloors: map[string]int64{"handshakes": 150, "admitted": 60, "refused": 60, "assembled_handshakes": 10},
 		MaxSamples:  3,
 	},
 	"C10": {
